@@ -11,7 +11,7 @@ from __future__ import annotations
 from fractions import Fraction as F
 from typing import Dict, List
 
-from .absint import TOP, Obj, SliceV, Unmodelled
+from .absint import TOP, Obj, SliceV, Unmodelled, xr_mapping_arg
 
 
 class Red:
@@ -233,10 +233,7 @@ def interp_xr(v: Obj, n: int, dim, axis_name=None, on_other=None, rule=None):
                 cur = prefix(cur)
             markers.append(("cumsum", d))
         elif op == "isel":
-            m = e[1][0] if e[1] else None
-            if not isinstance(m, dict):
-                kw = dict(e[2])
-                m = kw if kw else None
+            m = xr_mapping_arg("isel", e[1], e[2])
             if not isinstance(m, dict):
                 raise Unmodelled("isel without a mapping")
             for k, s in m.items():
@@ -259,7 +256,7 @@ def interp_xr(v: Obj, n: int, dim, axis_name=None, on_other=None, rule=None):
                         markers.append(("pad-other", ax, w))
             markers.append(("pad", e[1], e[2], e[3]))
         elif op == "rename":
-            m = e[1][0] if e[1] else dict(e[2])
+            m = xr_mapping_arg("rename", e[1], e[2])
             if isinstance(m, dict):
                 for k, nv in m.items():
                     if k == dim:
